@@ -449,7 +449,7 @@ class Check(object):
         self.exhaustive = False
         self.tlc_runs = []
         self.findings = load_findings(pid)
-        d = os.path.join(VERIF, "replays", pid)
+        d = os.path.join(os.environ.get("VERIF_REPLAY_DIR", os.path.join(VERIF, "replays")), pid)
         if os.path.isdir(d):
             for f in os.listdir(d):
                 if f.startswith(tier + "-"):
@@ -481,7 +481,7 @@ class Check(object):
                 if f["key"] not in [k["key"] for k in self.known_hits]:
                     self.known_hits.append(f)
                 return False
-        d = os.path.join(VERIF, "replays", self.pid)
+        d = os.path.join(os.environ.get("VERIF_REPLAY_DIR", os.path.join(VERIF, "replays")), self.pid)
         os.makedirs(d, exist_ok=True)
         path = os.path.join(d, "%s-%d.json" % (self.tier, len(self.violations)))
         with open(path, "w") as fh:
@@ -501,8 +501,9 @@ class Check(object):
         ev = {"property_id": self.pid, "tier": self.tier, "seed": self.seed, "level": self.level,
               "coverage": cov, "assumptions": self.assumptions, "wall_s": round(wall, 2),
               "violations": len(self.violations)}
-        os.makedirs(os.path.join(VERIF, "evidence"), exist_ok=True)
-        with open(os.path.join(VERIF, "evidence", self.pid + ".json"), "w") as fh:
+        evdir = os.environ.get("VERIF_EVIDENCE_DIR", os.path.join(VERIF, "evidence"))   # (seeded-change trials write elsewhere)
+        os.makedirs(evdir, exist_ok=True)
+        with open(os.path.join(evdir, self.pid + ".json"), "w") as fh:
             json.dump(ev, fh, indent=1, default=str)
         for f in self.known_hits:
             print("KNOWN-FINDING: property=%s %s" % (self.pid, f["what"]))
